@@ -120,6 +120,21 @@ Theorem C12_reader_sequential_pinned : READER_SEQUENTIAL = true /\ FP_message_re
   FP_perform_message_callback = 477511470021619338%N.
 Proof. repeat split. Qed.
 
+(* --- helpers the waiter code relies on (phase 8): EventBus.emit awaits the coroutine listeners one after the other and swallows
+   their exceptions (so the completion loop after the emit always runs, in order), atimeout is async_timeout.timeout (checked by
+   the translator); EventBus.emit / register / _get_listeners_for_event, build_message_map, Network.send_server_messages,
+   commands.BaseCommand and DataConnection.receive_message_object are pinned by fingerprint *)
+Theorem C12_helpers_pinned :
+  EMIT_SWALLOWS_LISTENER_EXCEPTIONS = true /\ EMIT_AWAITS_LISTENERS_IN_TURN = true /\
+  FPH_EventBus_emit = 959740788368092312%N /\
+  FPH_EventBus_register = 666991538698341251%N /\
+  FPH_EventBus_get_listeners_for_event = 990525461453454903%N /\
+  FPH_build_message_map = 965419404200658758%N /\
+  FPH_Network_send_server_messages = 1087691849633744863%N /\
+  FPH_BaseCommand = 769357197261227110%N /\
+  FPH_receive_message_object = 723333089156339520%N.
+Proof. repeat split. Qed.
+
 (* --- documented default (docstring of SoulSeekClient.execute: "default: 10"); regenerated by tr_retry ----- *)
 Theorem C12_default_command_timeout_documented : SlskGen.RetryGen.DEFAULT_COMMAND_TIMEOUT = 10%Z.
 Proof. reflexivity. Qed.
